@@ -53,7 +53,7 @@ type c11post struct {
 // process so that the driver restarts the harness with the remaining cases.
 var c11busy int32
 
-var c11postTimeout = 4 * time.Second
+var c11postTimeout = 15 * time.Second
 
 // c11try runs f under recover() and a watchdog.
 func c11try(posts *[]c11post, name string, f func()) bool {
